@@ -89,7 +89,7 @@ func (LegacyScenario) GenCase(r *rand.Rand, prop string) interface{} {
 	c := &LegCase{Pkg: pick(r, "middleware", "resbadger"), Default: chance(r, 50), Typed: chance(r, 40), Workers: pick(r, 1, 2, 4)}
 	c.ImagePct = pick(r, 0, 10, 30)
 	c.IndexSet = c.Pkg == "resbadger" && chance(r, 50)
-	for _, p := range []string{"conn.Publish", "event", "rawEvent", "worker.beforeCb", "worker.afterCb", "runWith.beforeLock", "handler", "handleRequest", "auto.lock"} {
+	for _, p := range []string{"conn.Publish", "event", "rawEvent", "worker.beforeCb", "worker.afterCb", "runWith.beforeLock", "handler", "handleRequest", "auto.lock", "badger.commit"} {
 		if chance(r, 60) {
 			c.Optional = append(c.Optional, p)
 		}
@@ -360,7 +360,8 @@ func (LegacyScenario) Execute(sim *sched.Sim, ci interface{}, prop string, race 
 	lr.db = openBadger(lr.dir)
 	defer func() { lr.db.Close() }()
 	res.VerifHook = sim.Yield
-	defer func() { res.VerifHook = nil }()
+	badger.VerifHook = sim.Yield
+	defer func() { res.VerifHook = nil; badger.VerifHook = nil }()
 
 	build := func(db *badger.DB) *miniSvc {
 		m := newMiniSvc(sim, h, "test", c.Workers)
